@@ -1,7 +1,7 @@
 (** Property C04 — a message counter is accepted at most once per secure
     peer; newer ones always.  Property theorems only. *)
 From RsM Require Import Lib.MachInt Model.Dedup Model.DedupSpec
-  Proofs.DedupFacts Proofs.DedupTheorems.
+  Proofs.DedupFacts Proofs.DedupTheorems Proofs.DedupGroup.
 Open Scope N_scope.
 
 (** Secure unicast session, every finite history from the fresh state. *)
@@ -79,6 +79,40 @@ Theorem C04_group_sender_clauses : forall (lo first : N) (H : list N),
     (fst (run true true (rx_new (wrap32 first)) (map wrap32 H))) = true.
 Proof. exact group_sender_clauses. Qed.
 Print Assumptions C04_group_sender_clauses.
+
+(** Group counter store: every reachable store keeps at most 16 pairwise
+    distinct senders; a step for a tracked sender is exactly a window step
+    on that sender's state and touches no other sender; a new sender is
+    trusted first, and displaces another sender only when the store is
+    full, and then the least recently used one. *)
+Theorem C04_group_store_invariant : forall ops : list (N * N * N),
+  GInv (g_run gstore_new ops).
+Proof. exact ginv_reachable. Qed.
+Print Assumptions C04_group_store_invariant.
+
+Theorem C04_group_store_tracked : forall st f n c e,
+  g_lookup (g_entries st) f n = Some e ->
+  snd (g_post_recv st f n c) = snd (post_recv (g_rx e) c true true) /\
+  option_map g_rx (g_lookup (g_entries (fst (g_post_recv st f n c))) f n) =
+    Some (fst (post_recv (g_rx e) c true true)) /\
+  (forall f2 n2, ~ (f2 = f /\ n2 = n) ->
+     g_lookup (g_entries (fst (g_post_recv st f n c))) f2 n2 =
+     g_lookup (g_entries st) f2 n2).
+Proof. exact g_tracked_sender. Qed.
+Print Assumptions C04_group_store_tracked.
+
+Theorem C04_group_store_new_sender : forall st f n c,
+  GInv st -> g_lookup (g_entries st) f n = None ->
+  snd (g_post_recv st f n c) = true /\
+  option_map g_rx (g_lookup (g_entries (fst (g_post_recv st f n c))) f n) = Some (rx_new c) /\
+  (forall f2 n2, ~ (f2 = f /\ n2 = n) ->
+     g_lookup (g_entries (fst (g_post_recv st f n c))) f2 n2 = g_lookup (g_entries st) f2 n2 \/
+     (length (g_entries st) = MAX_GROUP_CTR_ENTRIES /\
+      g_lookup (g_entries (fst (g_post_recv st f n c))) f2 n2 = None /\
+      exists ev, g_lookup (g_entries st) f2 n2 = Some ev /\
+                 forall x, In x (g_entries st) -> g_last ev <= g_last x)).
+Proof. exact g_new_sender. Qed.
+Print Assumptions C04_group_store_new_sender.
 
 (** Non-vacuity: concrete histories meeting the hypotheses. *)
 Example C04_ex_overtaken :
